@@ -55,8 +55,20 @@ def spreadsheet_of(form, spec):
         if len(cols) > 1:
             for _ in range(r0.choice([0, 1, 1, 2])):
                 cols.insert(r0.randrange(1, len(cols) + 1), None)
+        if spec["fmt"] == "csv":
+            csv_cols = csv_cols if "csv_cols" in locals() else {}
+            csv_cols[name] = cols
+            continue
         g = [[h for h in cols]]
-        for r in rows:
+        # a run of blank rows between two rows (authors separate sections with them; a sheet only ends after more than 60)
+        # (generated helper names of table-list groups carry their row number: those forms keep their rows where they are; blank rows
+        # the form already has count towards the run)
+        movable = name == "choices" or (name == "survey" and not any("table-list" in str(v) for r in rows for v in r.values()))
+        empties = sum(1 for r in rows if not r)
+        gap_at, gap_len = (r0.randrange(1, len(rows)), min(r0.choice([1, 3, 21, 45, 60]), 60 - empties)) if len(rows) > 1 and movable and r0.random() < 0.3 else (None, 0)
+        for ri, r in enumerate(rows):
+            if ri == gap_at:
+                g.extend([None] * len(cols) for _ in range(gap_len))
             line = []
             for h in cols:
                 v = r.get(h) if h is not None else None
@@ -67,6 +79,9 @@ def spreadsheet_of(form, spec):
                 line.append(v)
             g.append(line)
         grids.append((name, g))
+    if spec["fmt"] == "csv":
+        # a CSV export of the same sheets, spacer columns included (read by position, like every other container)
+        return render.csv_of_sheets(render.sheets_of(form), cols=locals().get("csv_cols", {})).encode("utf-8")
     try:
         return c12.grids_to_xlsx(grids) if spec["fmt"] == "xlsx" else c12.grids_to_xls(grids)
     except Exception:  # noqa: BLE001  (the writer refuses the text: not a pyxform matter)
